@@ -252,6 +252,9 @@ let handle (toks : string list) : string =
   match toks with
   | "K" :: rest -> handle_k rest
   | "S" :: bare :: rest -> handle_plain (bare = "1") rest
+  (* T <typed partition values> / W <pause>ms@<ids>: the descriptor is for the reader; the reference does
+     not depend on it (partitions = distinct typed values; wall-clock pauses never matter) *)
+  | ("T" | "W") :: _ :: rest -> handle_plain false rest
   | _ -> handle_plain false toks
 
 let () = Registry.register "C15" handle
